@@ -213,7 +213,7 @@ def run(ctx):
     ctx.assumptions = ["flatbuffers stand-in (harness/shims/fb) builds the messages: pysnark's use of the builder is judged, not the builder",
                        "own FlatBuffers reader (harness/decoders/fbreader.py) replaces the zkinterface consumers, which are not available offline",
                        "recorder as reference trace"]
-    n = 60 if ctx.tier == "quick" else 2000
+    n = 120 if ctx.tier == "quick" else 2500
     jobs = []
     for i, c in enumerate(CONFIGS):
         for k in range(5):
